@@ -6,6 +6,8 @@ import Wbxml.Model.AllocEnc
 import Wbxml.Model.AllocOld
 import Wbxml.Model.AllocTree
 import Wbxml.Model.AllocParseLoop
+import Wbxml.Model.AllocXml
+import Wbxml.Model.AllocTreeXml
 namespace Driver.AllocDrv
 open Wbxml Wbxml.Model.Alloc
 
@@ -528,6 +530,223 @@ def doD (k1 k2 : Nat) (wb hdr strtbl pubid pre root body : String) : String :=
     | (.error (.ub w), _) => s!"UB {w}"
     | (.error _, _) => "UB ?"
 
+
+/-! ### X: `wbxml_tree_to_xml` on a tree given by its shapes (grammar at the head of `do_X` in harness/oom.c) -/
+
+/-- A tree description: as `XNode`, the text contents not yet allocated. -/
+inductive XSpec where
+  | elt (name : Bytes) (xmlns : Option Bytes) (binary metType : Bool) (attrs : List XAttr) (kids : List XSpec)
+  | text (b : Bytes)
+  | cdata (kids : List XSpec)
+  | tree (lang : XLang) (root : XSpec)
+  | other (code : Nat)
+  deriving Inhabited
+
+def isHexC (c : Char) : Bool := ('0' ≤ c && c ≤ '9') || ('a' ≤ c && c ≤ 'f') || c == '-'
+
+/-- `<hex>` or `-`. -/
+def pHex (cs : List Char) : Option (Bytes × List Char) :=
+  let h := cs.takeWhile isHexC
+  (if h == ['-'] then some [] else bytesOfHexChars h).map (·, cs.dropWhile isHexC)
+
+def pNat (cs : List Char) : Nat × List Char :=
+  ((String.ofList (cs.takeWhile Char.isDigit)).toNat!, cs.dropWhile Char.isDigit)
+
+/-- `<letter>:<fff>:<root>:<public id>:<dtd>` -/
+def pLang (cs : List Char) : Option (XLang × List Char) :=
+  match cs with
+  | _ :: ':' :: a :: b :: c :: ':' :: r => do
+    let (root, r) ← pHex r
+    match r with
+    | ':' :: r => do
+      let (pid, r) ← pHex r
+      match r with
+      | ':' :: r => do
+        let (dtd, r) ← pHex r
+        pure (⟨a == '1', b == '1', c == '1', root, pid, dtd⟩, r)
+      | _ => none
+    | _ => none
+  | _ => none
+
+/-- `T<row>:<name>=<value>` | `L<name>=<value>` | `N=<value>` -/
+def pAttr (cs : List Char) : Option (XAttr × List Char) := do
+  let (name, r) ← (match cs with
+    | 'T' :: r =>
+      match (pNat r).2 with
+      | ':' :: r => (pHex r).map fun (n, r) => (some n, r)
+      | _ => none
+    | 'L' :: r => (pHex r).map fun (n, r) => (some n, r)
+    | 'N' :: r => some (none, r)
+    | _ => none)
+  match r with
+  | '=' :: r => (pHex r).map fun (v, r) => (⟨name, v⟩, r)
+  | _ => none
+
+partial def pAttrs (cs : List Char) : Option (List XAttr × List Char) := do
+  let (a, r) ← pAttr cs
+  match r with
+  | '|' :: r => do
+    let (as, r) ← pAttrs r
+    pure (a :: as, r)
+  | _ => pure ([a], r)
+
+mutual
+partial def pNode (cs : List Char) : Option (XSpec × List Char) :=
+  match cs with
+  | 'E' :: r => do
+    -- tag: T<row> | L<hex> (the harness's business), then /<name>/<ns>/<bm>
+    let r := (match r with
+      | 'T' :: r => (pNat r).2
+      | 'L' :: r => r.dropWhile isHexC
+      | _ => r)
+    match r with
+    | '/' :: r => do
+      let (name, r) ← pHex r
+      match r with
+      | '/' :: r => do
+        let (ns, r) ← (match r with
+          | '-' :: r => some (none, r)
+          | _ => (pHex r).map fun (n, r) => (some n, r))
+        match r with
+        | '/' :: b :: m :: r => do
+          let (attrs, r) ← (match r with
+            | '~' :: r => pAttrs r
+            | _ => some ([], r))
+          match r with
+          | '(' :: r => do
+            let (kids, r) ← pNodes r
+            match r with
+            | ')' :: r => pure (.elt name ns (b == '1') (m == '1') attrs kids, r)
+            | _ => none
+          | _ => none
+        | _ => none
+      | _ => none
+    | _ => none
+  | 'T' :: r => (pHex r).map fun (b, r) => (.text b, r)
+  | 'C' :: '(' :: r => do
+    let (kids, r) ← pNodes r
+    match r with
+    | ')' :: r => pure (.cdata kids, r)
+    | _ => none
+  | 'Y' :: r => do
+    let (l, r) ← pLang r
+    match r with
+    | '(' :: r => do
+      let (root, r) ← pNode r
+      match r with
+      | ')' :: r => pure (.tree l root, r)
+      | _ => none
+    | _ => none
+  | 'P' :: r => some (.other ENOTIMPL, r)
+  | _ => none
+partial def pNodes (cs : List Char) : Option (List XSpec × List Char) :=
+  match cs with
+  | ')' :: _ => some ([], cs)
+  | _ => do
+    let (n, r) ← pNode cs
+    match r with
+    | ',' :: r => do
+      let (ns, r) ← pNodes r
+      pure (n :: ns, r)
+    | _ => pure ([n], r)
+end
+
+mutual
+/-- The tree exists before the observed call: its text buffers are created without failures
+    (`wbxml_buffer_create(text, len, len)`). -/
+partial def mkXNode : XSpec → Prog XNode
+  | .elt name ns b m attrs kids => do
+    let ks ← mkXNodes kids
+    pure (.elt name ns b m attrs ks)
+  | .text t => do
+    match ← bufCreate (some t) t.length with
+    | some b => pure (.text b)
+    | none => ub "setup allocation failed"
+  | .cdata kids => do
+    let ks ← mkXNodes kids
+    pure (.cdata ks)
+  | .tree l root => do
+    let r ← mkXNode root
+    pure (.tree l r)
+  | .other c => pure (.other c)
+partial def mkXNodes : List XSpec → Prog (List XNode)
+  | [] => pure []
+  | n :: rest => do
+    let x ← mkXNode n
+    let xs ← mkXNodes rest
+    pure (x :: xs)
+end
+
+def doX (k1 k2 : Nat) (gen indent keepws : Nat) (lang tree : String) : String :=
+  match pLang lang.toList, pNode tree.toList with
+  | some (l, []), some (spec, []) =>
+    let g : XGen := ⟨gen, if gen = 1 then indent else 1, keepws = 0, keepws = 0⟩
+    match run (mkXNode spec) {} with
+    | (.ok root, s1) =>
+      let s1 := { s1 with sched := sched s1.next k1 k2, hits := 0 }
+      match run (treeToXml g l root) s1 with
+      | (.ok (ret, out), s) =>
+        s!"R {ret} | {tail s1 s} fault=none | out={match out with | none => "N" | some (_, bs) => hexOrDash bs}"
+      | (.error (.ub w), _) => s!"UB {w}"
+      | (.error _, _) => "UB ?"
+    | _ => "UB setup"
+  | _, _ => "BADREQ"
+
+/-! ### F: `wbxml_tree_from_xml` on the events Expat delivers (grammar at the head of `do_F` in harness/oom.c) -/
+
+def pXName (s : String) : Option XName :=
+  match s.toList with
+  | ['T'] => some (.token 0)
+  | ['T', '1'] => some (.token 1)        -- a tag with WBXML_TAG_OPTION_BINARY
+  | 'L' :: r => (unhex (String.ofList r)).map .literal
+  | _ => none
+
+/-- `[X<rest hex>:](T|L<hex>)=<value hex>` -/
+def pXAttrIn (s : String) : Option XAttrIn :=
+  match s.splitOn "=" with
+  | [n, v] => do
+    let v ← unhex v
+    match n.toList with
+    | 'X' :: r =>
+      match (String.ofList r).splitOn ":" with
+      | [rest, nm] => do
+        let rest ← unhex rest
+        let nm ← pXName nm
+        pure ⟨some rest, nm, v⟩
+      | _ => none
+    | _ => do
+      let nm ← pXName n
+      pure ⟨none, nm, v⟩
+  | _ => none
+
+def pXEvent (s : String) : Option XEvent :=
+  match s.toList with
+  | 'S' :: l :: r =>
+    match (String.ofList r).splitOn "/" with
+    | [t] => (pXName t).map (.start (l == '1') · [])
+    | [t, as] => do
+      let t ← pXName t
+      let as ← (as.splitOn ";").mapM pXAttrIn
+      pure (.start (l == '1') t as)
+    | _ => none
+  | 'E' :: _ => some .stop
+  | ['A'] => some .startCdata
+  | ['Z'] => some .endCdata
+  | 'C' :: d :: _ :: r =>
+    (unhex (String.ofList r)).map (.chars · (if d == '1' then .clear else if d == '2' then .vobject else .normal))
+  | _ => none
+
+def doF (k1 k2 : Nat) (parseOk : Bool) (events : String) : String :=
+  match (if events == "-" then some [] else (events.splitOn ",").mapM pXEvent) with
+  | none => "BADREQ"
+  | some evs =>
+    let s0 : Ledger := { sched := sched 0 k1 k2 }
+    match run (treeFromXml (· == 1) evs parseOk) s0 with
+    | (.ok (ret, c), s) =>
+      s!"R {ret} | {tail s0 s} fault=none | tree={match c with | none => "N" | some c => ctxSig c}"
+    | (.error (.ub w), _) => s!"UB {w}"
+    | (.error _, _) => "UB ?"
+
 def dispatch (line : String) : String :=
   match line.trimAscii.toString.splitOn " " with
   | "OOM" :: "U" :: k1 :: k2 :: ops => doU k1.toNat! k2.toNat! ops
@@ -537,6 +756,8 @@ def dispatch (line : String) : String :=
   | ["OOM", "B", k1, k2, events] => doB k1.toNat! k2.toNat! events
   | ["OOM", "D", k1, k2, _lang, wb, hdr, strtbl, pubid, pre, root, body] =>
     doD k1.toNat! k2.toNat! wb hdr strtbl pubid pre root body
+  | ["OOM", "F", k1, k2, _xml, pok, events] => doF k1.toNat! k2.toNat! (pok == "1") events
+  | ["OOM", "X", k1, k2, gen, indent, keepws, lang, tree] => doX k1.toNat! k2.toNat! gen.toNat! indent.toNat! keepws.toNat! lang tree
   | ["OOM", "T", k1, k2, us, ver, pid, _tree, chunks] => doT false k1.toNat! k2.toNat! (us == "1") ver.toNat! pid.toNat! chunks
   | ["OOM", "TOLD", k1, k2, us, ver, pid, _tree, chunks] => doT true k1.toNat! k2.toNat! (us == "1") ver.toNat! pid.toNat! chunks
   | _ => "BADVERB"
